@@ -94,8 +94,11 @@ CLAIMS['C11'] = dict(
           'arbitrary probe node p and edge e -- the graph presents the callback\'s out-edges in callback order, each written once. A BOUNDED sibling (all graphs with <= 3 nodes, degree <= 3, loops unwound, '
           'tolerant lowering) judges the same constructor when its loop structure has been changed and the invariants no longer fit.  '
           'Construction from a file: FileGraph::edge_begin/edge_end/getEdgeDst (v1/v2)/getEdgeData against the file sections, and LC_CSR_Graph::constructFrom(FileGraph&, tid, total) with both loops closed by invariants: '
-          'index entries, destinations and data of exactly the thread\'s nodes are the file\'s, in file order; nothing else is written.'),
-    note=('Narrow claim: every other layout, the readGraph driver and the composition over threads, void/v2 constructFrom, in-edges, transpose, sorting, binary-search lookup, NUMA options and local ranges are NOT decided. '
+          'index entries, destinations and data of exactly the thread\'s nodes are the file\'s, in file order; nothing else is written.  '
+          'Edge lookup: findEdge / findEdgeSortedByDst (std::find_if / std::lower_bound as the standard\'s contract): the answer is a slot of N1\'s range with destination N2, or edge_end(N1) exactly when no slot has it, and every '
+          'destination read lies inside the destination array.  Edge sorting: the proxy moves std::sort makes (EdgeSortReference operator= x2, operator*, swap) each move the (destination, data) pair of one slot as a unit and change no other slot.  BOUNDED stand-ins (all graphs with <= 3 nodes and <= 3/4/5 edges, every galois::do_all executed in every order of its iterations, loops unwound completely): '
+          'in-place transpose presents exactly the reversed edge multiset with edge data; LC_CSR_CSC_Graph::constructIncomingEdges and its helpers build in-edges that are a bijection onto the out-edges with matching end points.'),
+    note=('Narrow claim: every other layout, the readGraph driver and the composition over threads, non-void v2 constructFrom, transpose and in-edges beyond the stated bounds (and interleavings inside one iteration of their scatter loops), std::sort over the proxies, NUMA options and local ranges are NOT decided. '
           'Trusted: callbacks are deterministic functions; allocation dropped (arrays supplied); size bounds.'))
 
 CLAIMS['C05'] = dict(
